@@ -168,6 +168,42 @@ int main(int argc, char **argv)
       report("wheel", "quiescent-after-drain", late.load() == atStop, "at_drain=" + std::to_string(atStop) + " later=" + std::to_string(late.load()));
       report("wheel", "schedule-refused-after-drain", refusedId == InvalidTimerId, "id=" + std::to_string(refusedId));
     }
+    // schedule() racing drain(): every accepted timer is fired, or counted by drain (cancelled / remaining) - an id
+    // handed out for an entry linked into the already emptied wheel is a silently dropped timer
+    {
+      const int trials = thorough ? 200 : 40;
+      long lostTotal = 0, leftTotal = 0, acceptedTotal = 0;
+      for (int t = 0; t < trials; ++t)
+      {
+        TimingWheel wheel(ms(2), 16, 3);
+        wheel.start();
+        std::atomic<long> accepted{0}, ran{0};
+        std::atomic<bool> go{true};
+        std::vector<std::thread> th;
+        for (int k = 0; k < 16; ++k)
+          th.emplace_back([&, k]
+          {
+            std::mt19937 r(static_cast<unsigned>(t * 100 + k));
+            while (go.load(std::memory_order_relaxed))
+            {
+              auto id = wheel.schedule(ms(r() % 3 == 0 ? 0 : r() % 40), [&] { ran++; });
+              if (id != InvalidTimerId) accepted++;
+              else break; // refused: the wheel is draining
+            }
+          });
+        std::this_thread::sleep_for(std::chrono::microseconds(300 + (rng() % 3000)));
+        auto st = wheel.drain(ms(5000));
+        go = false;
+        for (auto &x : th) x.join();
+        std::this_thread::sleep_for(ms(5));
+        long lost = accepted.load() - ran.load() - static_cast<long>(st.cancelled) - static_cast<long>(st.remaining);
+        lostTotal += lost;
+        leftTotal += static_cast<long>(wheel.pendingCount());
+        acceptedTotal += accepted.load();
+      }
+      report("wheel", "schedule-racing-drain-accounted", lostTotal == 0 && leftTotal == 0,
+             "accepted=" + std::to_string(acceptedTotal) + " unaccounted=" + std::to_string(lostTotal) + " left-in-stopped-wheel=" + std::to_string(leftTotal));
+    }
   }
   return g_bad ? 1 : 0;
 }
